@@ -37,3 +37,9 @@ META["C02"] = {
     "level_note": "trusts bbolt, porcupine and byte-equality as agreement; explored schedules are sampled, not enumerated",
     "technique": "runtime monitoring: store taps with shadow-state invariants; porcupine linearizability of recorded Put histories",
 }
+META["C03"] = {
+    "level": "exploration",
+    "level_text": "at every beacon creation observed (all (n,t) up to n=7, contributor sets around the threshold, chosen arrival orders, hostile partial streams) the node had been handed oracle-verified partials from at least t distinct current members; starved networks produced nothing",
+    "level_note": "oracle verifies partials itself with the harness-generated public polynomial; sync disabled so every Put is an aggregation",
+    "technique": "runtime monitoring: wire tap + store tap, offline counting oracle over the recorded event log with forced delivery orders",
+}
